@@ -1,10 +1,32 @@
 package main
 
+// Property table: which rules decide which property, what they decide and what
+// they do not. Texts mirror DESIGN.md section 3.
+
+var (
+	cfgAMD   = []string{"amd64"}
+	cfgAMD32 = []string{"amd64", "386"}
+	cfgAll   = []string{"amd64", "386", "arm64"}
+)
+
+var reconstructChain = map[string]bool{
+	"(gf2p16.Matrix).rowReduceForInverse": true, "(gf2p16.Matrix).RowReduceForInverse": true, "(gf2p16.Matrix).Inverse": true,
+	"rsec16.makeReconstructionMatrix": true, "(rsec16.Coder).ReconstructData": true, "rsec16.NewCoderPAR2Vandermonde": true, "rsec16.NewCoderCauchy": true,
+	"(*par2.Decoder).Repair": true, "(*par2.Decoder).newCoderAndShards": true, "par2.repair": true, "par2.Repair": true,
+}
+
+var par1Chain = map[string]bool{
+	"(*par1.Decoder).Repair": true, "(*par1.Decoder).VerifyAllData": true, "(*par1.Decoder).newReedSolomon": true, "(*par1.Decoder).buildShards": true,
+	"par1.repair": true, "par1.Repair": true, "par1.verify": true, "par1.Verify": true,
+	"(*par1.Encoder).ComputeParityData": true, "par1.create": true, "par1.Create": true,
+}
+
 func init() {
 	register(&propertySpec{
-		ID:          "C02",
-		Explanation: "placeholder",
-		NeedCG:      true,
+		ID:     "C02",
+		NeedCG: true, Quick: cfgAMD, Thorough: cfgAll,
+		Explanation: "Decides, for every path of the code (hence every archive state and both double-check settings): which code may mutate the filesystem at all (EFF E1-E5), that every byte buffer Repair writes is the very buffer whose 16k-hash and MD5 were just compared with the hashes of the archive entry the target path was derived from (WGUARD), that a path is reported iff its write returned nil and reported paths survive to the caller also when Repair fails later (REPORT, REPORT-PROP), that writes are control-dependent on the file having been found damaged (SKIPOK), that Create's output names do not depend on the input names (CREATE-PATHS), and that no function reachable from Verify contains or reaches a write. These are necessary conditions: breaking any of them breaks the property.",
+		NotDecided: []string{"byte equality with the original beyond MD5/16k-hash equality", "the effect of a torn ioutil.WriteFile", "correctness of the reconstruction arithmetic"},
 		Run: func(w *World, r *Report, tier string) {
 			guard(r, "EFF", func() { ruleEFF(w, r, effOpts{true, true, true, true, true}) })
 			guard(r, "WGUARD", func() { ruleWGUARD(w, r, false) })
@@ -14,32 +36,31 @@ func init() {
 			guard(r, "CREATE-PATHS", func() { ruleCREATEPATHS(w, r) })
 		},
 	})
-}
 
-func init() {
 	register(&propertySpec{
-		ID:          "C18",
-		Explanation: "placeholder",
-		NeedCG:      true,
+		ID:     "C18",
+		NeedCG: true, Quick: cfgAMD, Thorough: cfgAll,
+		Explanation: "Decides error discipline over every call site rather than sampled fault indices: every error produced by a call in par1, par2, rsec16, gf2p16 and cmd/par reaches, on every path on which it may be non-nil, a return in error position, a panic or a no-return call; only os.IsNotExist turns a read failure into 'damage' (ERRFLOW, with per-return-site splitting of the immediately-invoked literals). No success is reported for a write that failed (REPORT), nothing but the file being written is touched (EFF), and the directory lister neither interprets the base name as a pattern nor uses an API that swallows listing errors (GLOB).",
+		NotDecided: []string{"that a rerun after the fault completes as if the fault had never occurred", "torn writes", "faults inside the Go runtime or the OS"},
 		Run: func(w *World, r *Report, tier string) {
 			guard(r, "ERRFLOW", func() {
-				ruleERRFLOW(w, r, errflowScope{pkgs: []string{"par1", "par2", "rsec16", "gf2p16", "cmd/par"}}, 60)
+				ruleERRFLOW(w, r, errflowScope{pkgs: []string{"par1", "par2", "rsec16", "gf2p16", "cmd/par"}}, 120)
 			})
+			guard(r, "REPORT", func() { ruleREPORT(w, r) })
+			guard(r, "EFF", func() { ruleEFF(w, r, effOpts{e1: true, e2: true}) })
 		},
 	})
-}
 
-func init() {
 	register(&propertySpec{
-		ID:          "C20",
-		Explanation: "placeholder",
-		NeedCG:      false,
+		ID:     "C20",
+		NeedCG: false, Quick: cfgAMD, Thorough: cfgAll,
+		Explanation: "Decides the exit-status mapping of cmd/par.main on its control-flow graph with no-return inference and a small abstract interpreter for the helpers: after each library call no path with a non-nil error reaches status 0 and every status there is a known non-zero constant; verify's success side exits with processRepairChecker(result counts); the repair error of each format reaches that format's classifier before any exit and the classifier's true edge exits 2; formats are selected by path.Ext; usage errors exit 3; main cannot fall off its end (CLI 1-6). processRepairChecker and the verdict predicates are evaluated exhaustively over their finite comparison domain against the table in the property (DECIDE). The concrete type the PAR2 classifier asserts is exactly the type ReconstructData returns on the not-enough-parity edge (PAIR-ERRTYPE).",
+		NotDecided: []string{"which library error arises in which archive state (e.g. PAR2 'no parity shards' is an unclassified error)", "flag parsing semantics of package flag", "resolution of relative paths by the OS"},
 		Run: func(w *World, r *Report, tier string) {
 			guard(r, "CLI", func() { ruleCLI(w, r) })
 			guard(r, "DECIDE", func() {
 				ruleDECIDEChecker(w, r)
 				ruleDECIDEPredicates(w, r, map[string]bool{"par1": true, "par2": true})
-				ruleDECIDECounts(w, r, map[string]bool{"par1": true, "par2": true})
 			})
 		},
 	})
